@@ -13,8 +13,14 @@ CHECKS = {
     "C01": {"category": "proof", "technique": "contract-based deductive verification (pyvc: AST symbolic execution of the real source + z3) of the local particle-Gibbs conditions L1,L3-L8; exact-kernel oracle as bounded stand-in",
             "text": "Every obligation generated from the current source of create_particle (+real Particle/TreeHolder), _get_log_w, ParticleSwarm, ConditionalSMCSampler._init/_update/_resample_swarm, AbstractSMCSampler.sample, ParticleGibbsTreeSampler.sample_swarm/_sample_tree_from_swarm, run.setup_kernel/setup_samplers and the three proposals' sample/log_p is discharged by z3 for all N, T, thresholds and parent states; the step from these local conditions to invariance is the trusted theorem M-PG, cross-checked by exact transition matrices on n<=3 points (bounded).",
             "note": PROOF_NOTE},
+    "C03": {"category": "proof", "technique": "contract-based deductive verification of the real FSCRPDistribution / TreeJointDistribution code against the FS-CRP formulas (pyvc + z3; loops as big sums and inductive loop contracts); independent reference implementation as bounded stand-in",
+            "text": "For every number of clones, top-level clones, samples, grid points and outliers the two prior forms, the outlier prior, both joint forms and their fused computation are proved equal to the model written from the statement (including harmlessness of the Python-truthiness guards). That the observers these functions read are label- and history-invariant functions of the tree, the equality/hash clause and the per-outlier marginal are covered by the bounded stand-in (independent reference on all trees over <= 3/4 points, five construction histories).",
+            "note": PROOF_NOTE},
     "C04": {"category": "proof", "technique": "contract-based deductive verification of the block-Gibbs obligations G1-G3 on the real DataPointSampler / PruneRegraphSampler code (pyvc + z3); M-GIBBS core in Lean; exact-kernel oracle as bounded stand-in",
             "text": "For any number of clones, with and without the outlier option, the real data-point move selects each candidate with probability exp(log_p_one)/sum, skips only points alone in their clone, and from every candidate it produces re-runs with the same family and probabilities (block closure, checked by executing the real move twice); prune-regraft picks the subtree root uniformly over K clones and the attachment with Gibbs probabilities. The subtree particle-Gibbs move admits no such contract and is a recorded known finding (K01), watched by the exact-kernel oracle (bounded).",
+            "note": PROOF_NOTE},
+    "C09": {"category": "proof", "technique": "contract-based deductive verification of RootPermutationDistribution.log_count / log_pdf against the closed form for the number of compatible orders (pyvc + z3); brute force + exact enumeration of sample() as bounded stand-in",
+            "text": "log_count equals log N! - sum_r log size(r)! + sum_r log_count(r) at the top level and the multinomial/factorial recursion below, for any numbers of top-level clones, children and outliers, and log_pdf is its negative. That the closed form counts the linear extensions (M-LINEXT) and that sample() is uniform over them is not a function postcondition within the engine's reach: exact enumeration on every tree with <= 4 (5) data points (bounded) and a 6.5-sigma statistical smoke check at 16-30 items.",
             "note": PROOF_NOTE},
     "C08": {"category": "proof", "technique": "contract-based deductive verification: relational obligation log rho(sample path) == log_p(result) on the real proposal code with a ghost density accumulator; z3",
             "text": "Faithful sampling of the three proposals (for every parent state, any number of top-level clones, any outlier proposal probability), the incremental weight formula with and without a permutation distribution, the final-step correction and log_normalize are proved on the real source; completeness of the candidate sets of the adapted proposals and the class invariant established by _init_dist are covered by exact enumeration on small parents (bounded).",
